@@ -24,7 +24,7 @@ ASSUMPTIONS = [
     "the raw bytes of unopened blocks are taken from the written file by the independent header parser",
 ]
 REQUIRED_CLASSES = ["key.ends00", "upd.crc.lo=00", "upd.crc.hi=00", "upd.crc=0000", "cust.crc.lo=00", "cust.crc.hi=00", "blocks>=2", "strict-subset", "ecc",
-                    "enc-component", "route=path", "ecc.edge-scalar"]
+                    "enc-component", "route=path", "ecc.edge-scalar", "decoy-decryptors"]
 
 KEY_CLASSES = ["random", "ends00", "upd.lo", "upd.hi", "upd.both", "cust.lo", "cust.hi", "cust.both"]
 
@@ -95,6 +95,9 @@ def check(case, rec):
     key, blocks = case["key"], case["blocks"]
     bec = sut.mk_bec2(case)
     writers = []
+    if case.get("decoys"):
+        ecc_sel = next((b["sel"] for b in blocks if b["kind"] == "ecc"), 0)
+        writers = [sut.B2.EccDecryptor((ecc_sel + d) % 4, sut.private_key_from_int(2000 + d)) for d in case["decoys"]]
     for i, b in enumerate(blocks):
         if b["kind"] == "upd" and not case.get("upd_writer_explicit", True):
             continue  # let UpdateAuthBlock build its own encryptor from the code
@@ -112,6 +115,11 @@ def check(case, rec):
     except M.Reject as e:
         raise Violation("written BEC2 does not have the documented envelope/header: %s" % e)
     decryptors = [sut.mk_encryptor(blocks[i]) for i in case["open"]]
+    if case.get("decoys"):
+        # other ECC decryptors (different key selectors) listed BEFORE the matching ones: selection must go by selector, not by position
+        rec.cls("decoy-decryptors")
+        ecc_sel = next((b["sel"] for b in blocks if b["kind"] == "ecc"), 0)
+        decryptors = [sut.B2.EccDecryptor((ecc_sel + d) % 4, sut.private_key_from_int(1000 + d)) for d in case["decoys"]] + decryptors
     try:
         g = sut.Bec2File.read_file(src(), decryptors, check_cmac=case.get("check_cmac", True))
     except Exception as e:
@@ -171,7 +179,8 @@ def strat_case(draw, tier="quick"):
     mx = 300 if tier == "quick" else 4096
     comps = draw(st.lists(st.one_of(S.plain_component(mx), S.plain_component(mx), S.enc_component(200)), max_size=3))
     return dict(comments=draw(S.comment_list(3)), comps=comps, key=key, blocks=blocks, open=sub,
-                route=draw(st.sampled_from(["stream", "path"])), upd_writer_explicit=draw(st.booleans()), check_cmac=draw(st.sampled_from([True, True, False])))
+                route=draw(st.sampled_from(["stream", "path"])), upd_writer_explicit=draw(st.booleans()), check_cmac=draw(st.sampled_from([True, True, False])),
+                decoys=draw(st.lists(st.integers(1, 3), max_size=2, unique=True)) if any(b["kind"] == "ecc" for b in blocks) else [])
 
 
 def enum_keygrid(tier, shard, nshards, rng):
